@@ -197,7 +197,7 @@ func knownEncodeDeviation(g *group, e element, format string) (string, bool) {
 
 func TestPointRoundTrip(t *testing.T) {
 	const test = "PointRoundTrip"
-	vlib.Check(t, 5200, func(t *rapid.T) {
+	vlib.Check(t, 6000, func(t *rapid.T) {
 		g := drawGroup(t)
 		e := drawElement(t, g, true, "e.")
 		how := rapid.SampledFrom(constructors(g, e)).Draw(t, "constructor")
@@ -253,7 +253,7 @@ func TestPointRoundTrip(t *testing.T) {
 
 func TestEncodingInjective(t *testing.T) {
 	const test = "EncodingInjective"
-	vlib.Check(t, 2600, func(t *rapid.T) {
+	vlib.Check(t, 3000, func(t *rapid.T) {
 		g := drawGroup(t)
 		e1 := drawElement(t, g, true, "e1.")
 		var e2 element
@@ -556,7 +556,7 @@ func malformedCBOR(t *rapid.T, key string, payload []byte, class string) []byte 
 
 func TestPointDecodeBytes(t *testing.T) {
 	const test = "PointDecodeBytes"
-	vlib.Check(t, 7000, func(t *rapid.T) {
+	vlib.Check(t, 9000, func(t *rapid.T) {
 		g := drawGroup(t)
 		format := rapid.SampledFrom(decodeFormats).Draw(t, "format")
 		inner := innerFormat(g, format)
@@ -598,7 +598,7 @@ func TestPointDecodeBytes(t *testing.T) {
 
 func TestAffineConstructors(t *testing.T) {
 	const test = "AffineConstructors"
-	vlib.Check(t, 2200, func(t *rapid.T) {
+	vlib.Check(t, 2500, func(t *rapid.T) {
 		g := drawGroup(t)
 		m := g.m
 		e := drawElement(t, g, false, "e.")
